@@ -50,7 +50,7 @@ try:
     script_mode = None
     if os.path.exists(os.path.join(src, "demo.sh")):
         script_mode = "demo.sh"
-    elif "build_demo.sh" in str(meta0.get("demo_cmd", "")) and os.path.exists(os.path.join(parent, "build_demo.sh")):
+    elif "build_demo.sh" in str(meta0.get("demo_cmd", "")) and (os.path.exists(os.path.join(parent, "build_demo.sh")) or os.path.exists(os.path.join(src, "build_demo.sh"))):
         script_mode = "build_demo.sh"
     for label, root in (("unchanged", "/repo"), ("changed", wt)):
         if script_mode:
@@ -64,7 +64,7 @@ try:
             if script_mode == "demo.sh":
                 cmdline = "sh demo.sh %s" % root
             else:
-                cmdline = "sh ../build_demo.sh %s demo.c ./demo_bin && ./demo_bin %s" % (root, root)
+                cmdline = "sh %s %s demo.c ./demo_bin && ./demo_bin %s" % ("build_demo.sh" if os.path.exists(os.path.join(sub, "build_demo.sh")) else "../build_demo.sh", root, root)
             try:
                 p = subprocess.run(["sh", "-c", cmdline], cwd=sub, capture_output=True, text=True, timeout=600)
                 outcome[label] = p.returncode
